@@ -95,4 +95,15 @@ def brokeredServerHasCert (P : Params) (certViaCallback : Bool) : Bool := P.brok
 (Names from `os.CreateTemp` are unique in the directory whoever asks; per-process sequence numbers are not.) -/
 def socketNamesCanCollide (P : Params) (k j : Nat) : Bool := !P.socketNamesFromCreateTemp && k == j
 
+/-- fact: the function `cmdrunner.ReattachFunc` returns looks for the process and probes its address on EVERY call — it
+keeps no result from an earlier call -/
+structure ProbeParams where
+  probesEveryCall : Bool
+  deriving DecidableEq, Repr
+
+/-- C15: a reattach function is called for the `k`-th time (0 = first); the plugin was alive at the first call and is
+`aliveNow` at this one.  Is the answer "found"? -/
+def reattachFinds (R : ProbeParams) (k : Nat) (aliveNow : Bool) : Bool :=
+  if R.probesEveryCall || k == 0 then aliveNow else true
+
 end GoPlugin.Hygiene
